@@ -274,7 +274,7 @@ end consts
 
 /-! ## metric functions needing `sqrt`, `acos`, `atan2` -/
 section float
-variable [Add α] [Sub α] [Mul α] [Div α] [Neg α] [OfNat α 1] [Transc α]
+variable [Add α] [Sub α] [Mul α] [Div α] [Neg α] [OfNat α 1] [Transc α] [LT α] [DecidableLT α]
 
 def V1.magnitude (a : V1 α) : α := Transc.sqrt a.magnitude2
 def V2.magnitude (a : V2 α) : α := Transc.sqrt a.magnitude2
@@ -293,9 +293,9 @@ def V1.normalize (a : V1 α) : V1 α := a.normalizeTo 1
 def V2.normalize (a : V2 α) : V2 α := a.normalizeTo 1
 def V3.normalize (a : V3 α) : V3 α := a.normalizeTo 1
 def V4.normalize (a : V4 α) : V4 α := a.normalizeTo 1
-/-- default `InnerSpace::angle` (radians) -/
-def V1.angle (a b : V1 α) : α := Transc.acos (V1.dot a b / (a.magnitude * b.magnitude))
-def V4.angle (a b : V4 α) : α := Transc.acos (V4.dot a b / (a.magnitude * b.magnitude))
+/-- default `InnerSpace::angle` (radians), with the clamp of the repaired code -/
+def V1.angle (a b : V1 α) : α := Transc.acos (clampUnit (V1.dot a b / (a.magnitude * b.magnitude)))
+def V4.angle (a b : V4 α) : α := Transc.acos (clampUnit (V4.dot a b / (a.magnitude * b.magnitude)))
 /-- `Vector2::angle`: `atan2(perp_dot, dot)` -/
 def V2.angle (a b : V2 α) : α := Transc.atan2 (V2.perpDot a b) (V2.dot a b)
 /-- `Vector3::angle`: `atan2(|cross|, dot)` -/
